@@ -111,6 +111,7 @@ struct ArgDef {
   std::vector<std::pair<int, int>> constraints;   // (ConstraintType, index of the other argument)
   std::string desc;           // description (usage tests)
   std::vector<std::pair<int, int>> posFormats;   // (value position, 1 uppercase / 2 lowercase) - addFormatPos()
+  bool inSubGroup = false;    // usage tests: the argument is defined in a sub-group handler reached through "-G,--sub-group"
   int printDefault = 0;       // 0: leave the library default, 1: setPrintDefault(true), 2: setPrintDefault(false)
 };
 struct HConstraint { int type = 0; std::vector<int> args; };
@@ -612,6 +613,7 @@ inline void writeConfig(verif::Writer &w, const Config &c) {
     w.u(a.constraints.size());
     for (auto &ct : a.constraints) w.u(ct.first).u(ct.second);
     if (!a.posFormats.empty()) { w.tag("pf").u(a.posFormats.size()); for (auto &pf : a.posFormats) w.u(pf.first).u(pf.second); }
+    if (a.inSubGroup) w.tag("sg");
     w.nl();
   }
   for (auto &h : c.hcs) { w.tag("hc").u(h.type).u(h.args.size()); for (int x : h.args) w.u(x); w.nl(); }
@@ -634,6 +636,7 @@ inline Config readConfig(verif::Reader &r) {
     size_t nct = r.u();
     for (size_t j = 0; j < nct; ++j) { int t = static_cast<int>(r.u()); int o = static_cast<int>(r.u()); a.constraints.push_back({t, o}); }
     if (!r.eof() && r.peek() == "pf") { r.tag(); size_t np = r.u(); for (size_t j = 0; j < np; ++j) { int i = static_cast<int>(r.u()); int f = static_cast<int>(r.u()); a.posFormats.push_back({i, f}); } }
+    if (!r.eof() && r.peek() == "sg") { r.tag(); a.inSubGroup = true; }
     c.args.push_back(a);
   }
   for (size_t i = 0; i < nh; ++i) { HConstraint h; r.tag(); h.type = static_cast<int>(r.u()); size_t n = r.u(); for (size_t j = 0; j < n; ++j) h.args.push_back(static_cast<int>(r.u())); c.hcs.push_back(h); }
